@@ -1994,8 +1994,12 @@ F40_WHAT = ("a caller thread that passed _check_running() (start_task_soon/start
 
 def f40_is_known() -> bool:
     """known_findings.json is only ever read: is F40's predicate recorded as a known finding of C15?"""
+    import os
+    from pathlib import Path
+
+    path = Path(os.environ.get("VERIF_KNOWN_FINDINGS") or (core.VERIF / "known_findings.json"))
     try:
-        data = json.loads((core.VERIF / "known_findings.json").read_text())
+        data = json.loads(path.read_text())
     except Exception:  # noqa: BLE001
         return False
     for f in data.get("findings", []):
